@@ -47,6 +47,8 @@ func c06Ops(sub bool) []string {
 		"b = a", "c = [a, 0]", "a[0] = 100", "a[-1] = 101", "b[0] = 108", "a = a + [103]", "b = a + b", "a = a + 104",
 		"del(a[0])", "b = a[1:]", "b = a[0:-1]", "b = rest(a)", "func(p) { p[0] = 105; p }(a)", "x = c[0]; x[0] = 107", "b = a + {0: 5}", "a = a + {200: 1}",
 		"b = a + 7; c = a + 8", "b = {\"x\": 0} + a", "c = {0: 1} + a; c[300] = 1")
+	// containers whose representation is large although their length is back under the threshold
+	ops = append(ops, "a = "+c06Map(5)+"; del(a[4])", "a = {0: 1, 0: 2, 0: 3, 0: 4, 0: 5, 1: 6}", "a = "+c06Arr(12)+"; a = a[0:3]", "del(a[1]); del(a[2])")
 	if !sub {
 		ops = append(ops, "c = {\"k\": a}", "a = b", "b = c", "a[3] = 102", "c = a + [1]", "a[0] = a[0] + 1", "func(p) { p = p + [5]; 1 }(a)",
 			"for e = a { a[0] = 106 }", "a = a * 2", "c = b + a", "m = a; m[1] = 55; b = m", "x = c.k; x[2] = 77", "b = a[2:5]; b[0] = 66", "a[8] = 88")
@@ -142,9 +144,9 @@ func runC06(c *core.Ctx) {
 			ok = explore("hist", sub, 5)
 			if ok {
 				bounds = append(bounds, fmt.Sprintf("every history of <=5 operations over a %d-operation sub-alphabet centred on the thresholds", len(sub)))
-				ok = explore("hist", full[:37], 4)
+				ok = explore("hist", full[:41], 4)
 				if ok {
-					bounds = append(bounds, "every history of <=4 operations over the first 37 operations")
+					bounds = append(bounds, "every history of <=4 operations over the first 41 operations")
 				}
 			}
 		}
